@@ -579,42 +579,64 @@ def apply_rewrites(src, mask, it, ed, stats, spec_entry):
     return
 
 
+def _shape(text):
+    """the shape of an initialiser / scrutinee: identifiers and paths become `#`, literals and operators stay, blanks go"""
+    t = re.sub(r'//[^\n]*', '', text)
+    t = re.sub(r'[A-Za-z_][\w]*(?:\s*(?:::|\.)\s*[A-Za-z_]\w*)*', '#', t)
+    t = re.sub(r'\s+', '', t)
+    return t[:60]
+
+
 def fn_binders(src, mask, it):
-    """ordered (kind, name) list of the names a function binds: parameters, let / for / Some(..)|Ok(..)|Err(..) patterns, `{ items: x }`"""
+    """ordered (kind, shape, name) list of the names a function binds: parameters, let / for / Some(..)|Ok(..)|Err(..) patterns, `{ items: x }`;
+    shape = what the name is bound to (see _shape), so that a renamed local is recognised even when other locals were added around it"""
     out = []
     sig_lo, body_lo, hi = it['kw'], it['body_start'], it['end']
-    pats = [('param', r'[(,]\s*(?:mut\s+)?([a-z_]\w*)\s*:(?!:)'),]
-    for m in re.finditer(pats[0][1], src[sig_lo:body_lo]):
-        if mask[sig_lo + m.start(1)] == ord('c'): out.append((sig_lo + m.start(1), 'param', m.group(1)))
+    for m in re.finditer(r'[(,]\s*(?:mut\s+)?([a-z_]\w*)\s*:(?!:)\s*([^,)]*)', src[sig_lo:body_lo]):
+        if mask[sig_lo + m.start(1)] == ord('c'): out.append((sig_lo + m.start(1), 'param', _shape(m.group(2)), m.group(1)))
     body = src[body_lo:hi]
-    for kind, rx in [('let', r'\blet\s+(?:mut\s+)?([a-z_]\w*)\b(?!\s*\()'), ('let', r'\blet\s*\(\s*(?:mut\s+)?([a-z_]\w*)\s*,\s*(?:mut\s+)?([a-z_]\w*)\s*\)'),
-                     ('for', r'\bfor\s+([a-z_]\w*)\s+in\b'), ('for', r'\bfor\s*\(\s*([a-z_]\w*)\s*,\s*([a-z_]\w*)\s*\)\s+in\b'),
-                     ('pat', r'\b(?:Some|Ok|Err)\(\s*(?:mut\s+)?([a-z_]\w*)\s*\)\s*(?:=>|=(?!=))'), ('pat', r'\{\s*items\s*:\s*([a-z_]\w*)\s*\}'), ('pat', r'List\s*\{\s*(items)\s*\}'),
-                     ('clo', r'\|\s*&?\s*([a-z_]\w*)\s*\|'), ('clo', r'\|\s*([a-z_]\w*)\s*,\s*([a-z_]\w*)\s*\|')]:
+    def rhs(pos, stop=';'):
+        j = pos; d = 0
+        while j < len(body) and j < pos + 400:
+            ch = body[j]
+            if ch in stop and d == 0: break
+            if ch in '([{': d += 1
+            elif ch in ')]}':
+                if d == 0: break
+                d -= 1
+            j += 1
+        return body[pos:j]
+    for kind, rx, stop in [('let', r'\blet\s+(?:mut\s+)?([a-z_]\w*)\b(?!\s*\()[^=;]*=', ';'), ('let', r'\blet\s*\(\s*(?:mut\s+)?([a-z_]\w*)\s*,\s*(?:mut\s+)?([a-z_]\w*)\s*\)[^=;]*=', ';'),
+                           ('for', r'\bfor\s+([a-z_]\w*)\s+in\b', '{'), ('for', r'\bfor\s*\(\s*([a-z_]\w*)\s*,\s*([a-z_]\w*)\s*\)\s+in\b', '{'),
+                           ('pat', r'\b(?:Some|Ok|Err)\(\s*(?:mut\s+)?([a-z_]\w*)\s*\)\s*(?:=>|=(?!=))', '{;,'), ('pat', r'\{\s*items\s*:\s*([a-z_]\w*)\s*\}', ''), ('pat', r'List\s*\{\s*(items)\s*\}', ''),
+                           ('clo', r'\|\s*&?\s*([a-z_]\w*)\s*\|', ''), ('clo', r'\|\s*([a-z_]\w*)\s*,\s*([a-z_]\w*)\s*\|', '')]:
         for m in re.finditer(rx, body):
+            sh = _shape(rhs(m.end(), stop)) if stop else ''
+            if kind == 'pat' and body[m.end() - 2:m.end()] == '=>': sh = ''     # a match arm: the scrutinee is elsewhere
             for g in range(1, (m.lastindex or 0) + 1):
                 a = body_lo + m.start(g)
-                if mask[a] == ord('c'): out.append((a, kind, m.group(g)))
+                if mask[a] == ord('c'): out.append((a, kind, sh, m.group(g)))
     out.sort()
-    return [(k, n) for _, k, n in out if not n.startswith('_') and not re.match(r'r\d+_', n) and n not in ('self', 'mut')]
+    return [(k, sh, n) for _, k, sh, n in out if not n.startswith('_') and not re.match(r'r\d+_', n) and n not in ('self', 'mut')]
 
 
 def binder_renames(then, now):
-    """old -> new for the binders that were merely renamed since the overlays were written.  The two binder lists are aligned
-    (difflib on kind+name); inside a replaced stretch of equal length and equal kinds the names are paired position by position.
-    A pair is used only if the old name is gone from the function, the new name is fresh, and the old name has a single target --
-    so reordering statements, adding locals or removing locals never renames anything."""
+    """old -> new for the binders that were merely renamed since the overlays were written.  The two binder lists are aligned on
+    (kind, shape) with difflib; a name that differs inside a matched stretch -- or inside a replaced stretch of equal length and equal
+    kinds -- is a candidate.  A candidate is used only if the old name is gone from the function, the new name is fresh, and the old
+    name has a single target: reordering statements, adding locals or removing locals never renames anything."""
     if not then or not now: return {}
     import difflib
-    then_names = set(n for _, n in then); now_names = set(n for _, n in now)
+    then = [tuple(x) if len(x) == 3 else (x[0], '', x[1]) for x in then]
+    then_names = set(x[2] for x in then); now_names = set(x[2] for x in now)
     cand = {}
-    sm = difflib.SequenceMatcher(a=then, b=now, autojunk=False)
-    for tag, i1, i2, j1, j2 in sm.get_opcodes():
-        if tag != 'replace' or (i2 - i1) != (j2 - j1): continue
-        if any(then[i1 + d][0] != now[j1 + d][0] for d in range(i2 - i1)): continue
-        for d in range(i2 - i1):
-            o, n = then[i1 + d][1], now[j1 + d][1]
-            if o != n: cand.setdefault(o, set()).add(n)
+    def pair(o, n):
+        if o != n: cand.setdefault(o, set()).add(n)
+    for key in (lambda x: (x[0], x[1]), lambda x: x[0]):       # with shapes, and with kinds only; a name with two different targets is dropped below
+        sm = difflib.SequenceMatcher(a=[key(x) for x in then], b=[key(x) for x in now], autojunk=False)
+        for tag, i1, i2, j1, j2 in sm.get_opcodes():
+            if tag == 'equal' or (tag == 'replace' and (i2 - i1) == (j2 - j1) and all(then[i1 + d][0] == now[j1 + d][0] for d in range(i2 - i1))):
+                for d in range(i2 - i1): pair(then[i1 + d][2], now[j1 + d][2])
     ren = {}
     for o, ns in cand.items():
         if len(ns) != 1: continue
@@ -724,7 +746,7 @@ def r9_desugar_iterators(srcs, stats):
       f  E.iter().position(|X| BODY)               =>  ({ let mut r9_p: Option<usize> = None; for r9_k in 0..E.len() { let X = &E[r9_k];
                                                           if r9_p.is_none() && (BODY) { r9_p = Some(r9_k); } } r9_p })
     Test modules are left alone.  The bounded Kani harnesses of the thorough tier run the ORIGINAL adapter code against the same facts."""
-    PLACE = r'(?<![\w.])((?:\*?[A-Za-z_]\w*)(?:\.[A-Za-z_]\w*)*)'
+    PLACE = r'(?<![\w.])((?:\*?[A-Za-z_]\w*)(?:\s*\.\s*[A-Za-z_]\w*)*)\s*'       # a place expression; its segments may sit on separate lines
     out = {}
     for m_, src in srcs.items():
         mask = rsitems.scan_tokens(src)
@@ -736,19 +758,19 @@ def r9_desugar_iterators(srcs, stats):
         # a: enumerate in a for header
         for x in re.finditer(r'\bfor\s*\(\s*(\w+)\s*,\s*(\w+)\s*\)\s+in\s+' + PLACE + r'\.iter\(\)\.enumerate\(\)\s*\{', src):
             if not live(x.start()): continue
-            I, X, E = x.group(1), x.group(2), x.group(3)
+            I, X, E = x.group(1), x.group(2), re.sub(r'\s+', '', x.group(3))
             Iv = I if I != '_' else 'r9_i'
             edits.append((x.start(), x.end(), 'for %s in 0..%s.len() { let %s = &%s[%s];' % (Iv, E, X, E, Iv) + nl(x.start(), x.end()), 'R9a_enumerate'))
         # a': enumerate over the reversed slice
         for x in re.finditer(r'\bfor\s*\(\s*(\w+)\s*,\s*(\w+)\s*\)\s+in\s+' + PLACE + r'\.iter\(\)\.rev\(\)\.enumerate\(\)\s*\{', src):
             if not live(x.start()): continue
-            I, X, E = x.group(1), x.group(2), x.group(3)
+            I, X, E = x.group(1), x.group(2), re.sub(r'\s+', '', x.group(3))
             Iv = I if not I.startswith('_') else 'r9_i'
             edits.append((x.start(), x.end(), 'for %s in 0..%s.len() { let %s = &%s[%s.len() - 1 - %s];' % (Iv, E, X, E, E, Iv) + nl(x.start(), x.end()), 'R9a_enumerate'))
         # b/d/f: expression forms
         for x in re.finditer(PLACE + r'\.iter\(\)\s*\.\s*(fold|filter|position)\s*\(', src):
             if not live(x.start()): continue
-            E, kind = x.group(1), x.group(2)
+            E, kind = re.sub(r'\s+', '', x.group(1)), x.group(2)
             po = x.end() - 1; pc = _close_paren(src, mask, po)
             if pc is None: continue
             inner = src[po + 1:pc - 1]
@@ -773,7 +795,7 @@ def r9_desugar_iterators(srcs, stats):
         # e: for_each statement
         for x in re.finditer(PLACE + r'\.iter_mut\(\)\s*\.\s*for_each\s*\(', src):
             if not live(x.start()): continue
-            E = x.group(1)
+            E = re.sub(r'\s+', '', x.group(1))
             po = x.end() - 1; pc = _close_paren(src, mask, po)
             if pc is None: continue
             mm = re.match(r'\s*\|\s*(\w+)\s*\|\s*\*\s*(\w+)\s*(\+|-|\*|/)=\s*(.+?)\s*$', src[po + 1:pc - 1], re.S)
@@ -792,7 +814,7 @@ def r9_desugar_iterators(srcs, stats):
         #    visited through get_mut: `{ let r9_keys = (keys of M, cloned); for r9_key in r9_keys.iter() { if let Some(V) = M.get_mut(r9_key) { BODY } } }`
         for x in re.finditer(r'\bfor\s*\(\s*_\s*,\s*(\w+)\s*\)\s+in\s+' + PLACE + r'\.iter_mut\(\)\s*\{', src):
             if not live(x.start()): continue
-            V, E = x.group(1), x.group(2)
+            V, E = x.group(1), re.sub(r'\s+', '', x.group(2))
             bo = x.end() - 1
             try: bc = rsitems.match_brace(src, mask, bo)      # index just past the closing brace
             except Exception: continue
@@ -805,17 +827,17 @@ def r9_desugar_iterators(srcs, stats):
         for x in re.finditer(PLACE + r'\.iter\(\)\s*\.\s*sum(::<f32>)?\(\)', src):
             if not live(x.start()): continue
             if not x.group(2) and not re.search(r'float_stack\s*\.\s*push\s*\(\s*$', src[max(0, x.start() - 60):x.start()]): continue
-            edits.append((x.start(), x.end(), '({ let mut r14_s: f32 = crate::spec::f32_sum_identity(); for r14_x in %s.iter() { r14_s = r14_s + *r14_x; } r14_s })' % x.group(1)
+            edits.append((x.start(), x.end(), '({ let mut r14_s: f32 = crate::spec::f32_sum_identity(); for r14_x in %s.iter() { r14_s = r14_s + *r14_x; } r14_s })' % re.sub(r'\s+', '', x.group(1))
                           + nl(x.start(), x.end()), 'R14_f32_sum'))
         # h: the keys of a map, cloned into a vector (iteration order unspecified either way)
         for x in re.finditer(PLACE + r'\.keys\(\)\s*\.\s*cloned\(\)\s*\.\s*collect\(\)', src):
             if not live(x.start()): continue
-            E = x.group(1)
+            E = re.sub(r'\s+', '', x.group(1))
             edits.append((x.start(), x.end(), '({ let mut r9_v = Vec::new(); for r9_kv in %s.iter() { r9_v.push(r9_kv.0.clone()); } r9_v })' % E + nl(x.start(), x.end()), 'R9h_keys_collect'))
         # g: retain statement -- "operates in place, visiting each element exactly once in the original order"
         for x in re.finditer(PLACE + r'\.retain\s*\(', src):
             if not live(x.start()): continue
-            E = x.group(1)
+            E = re.sub(r'\s+', '', x.group(1))
             po = x.end() - 1; pc = _close_paren(src, mask, po)
             if pc is None: continue
             mm = re.match(r'\s*\|\s*(\w+)\s*\|\s*(.+?)\s*$', src[po + 1:pc - 1], re.S)
@@ -1033,7 +1055,7 @@ def _assemble(repo, spec, rows=None, canary=None, opts=None):
             e = spec.fn.get(fn_path(mod, it) if path_override is None else path_override.split('@')[0])
             if e and opts.get('known_binders') is not None:
                 # locals renamed since the overlays were written are followed (only pure renames: see binder_renames)
-                ren = binder_renames([tuple(x) for x in opts['known_binders'].get((path_override or fn_path(mod, it)).split('@')[0], [])], fn_binders(src, mask, it))
+                ren = binder_renames(opts['known_binders'].get((path_override or fn_path(mod, it)).split('@')[0], []), fn_binders(src, mask, it))
                 if ren:
                     e = dict(e, text=rename_in_overlay(e['text'], ren), loops={k: rename_in_overlay(t, ren) for k, t in e['loops'].items()},
                              proofs={k: rename_in_overlay(t, ren) for k, t in e['proofs'].items()})
